@@ -157,6 +157,7 @@ impl Property for C10 {
         for m in &muts {
             let (mimg, dfile, doff) = apply(&img, &names, *m);
             evals += 1;
+            rep.fault(match m { Mutation::Truncate { .. } => "wal_file_torn_tail", Mutation::ZeroTail { .. } => "wal_file_zero_filled_tail", Mutation::Flip { .. } => "wal_file_bit_flipped", Mutation::Burst { .. } => "wal_file_burst_up_to_32_bits", Mutation::Remove { .. } => "wal_file_lost" });
             let mstore = SimWalStore::from_image(&mimg);
             let rot2 = match WalRotator::new(mstore.clone(), max_file_size) { Ok(r) => r, Err(e) => { rep.violate("C10/recover-setup-error", e.to_string()); break; } };
             let rec = match rot2.recover_all_entries() { Ok(r) => r, Err(e) => { rep.violate("C10/recover-error", format!("{:?}: {}", m, e)); break; } };
